@@ -258,3 +258,58 @@ def native_playback(scratch, name, harness_timeout=900):
     passed = bool(re.search(r"test result: ok\. [1-9]", out2))
     rep = True if failed else (False if passed else None)
     return {"reproduced": rep, "test": tn, "profile": "dev", "tail": out2[-1500:]}
+
+
+def discover_loops(scratch, name):
+    """Build one harness (1 s verification budget, temps kept) and list the loops of its goto
+    binary: [(loop_id, function, file, line)].  Loop ids embed crate hashes, so per-loop bounds are
+    selected by *function name* at run time, never hard-coded."""
+    import glob
+    target = os.path.join(scratch.dir, "target-kani")
+    cmd = ["cargo", "kani", "-Z", "stubbing", "-Z", "unstable-options", "--harness-timeout", "1s",
+           "--target-dir", target, "--harness", name, "--keep-temps"]
+    rc, out, dt = run(cmd, cwd=scratch.repo, timeout=900)
+    fs = [f for f in glob.glob(target + "/kani/*/debug/build/arroy/*/out/*" + name + ".out")
+          if "symtab" not in f]
+    if not fs:
+        return None, out
+    rc, lo, dt = run(["cbmc", "--show-loops", fs[0]], timeout=300)
+    loops = []
+    cur = None
+    for ln in lo.splitlines():
+        m = re.match(r"^Loop (\S+):", ln)
+        if m:
+            cur = m.group(1)
+            continue
+        m = re.match(r"^\s*file (\S+) line (\d+)(?: column \d+)? function (.*)$", ln)
+        if m and cur:
+            loops.append((cur, m.group(3).strip(), m.group(1), int(m.group(2))))
+            cur = None
+    return loops, out
+
+
+def run_with_unwindset(scratch, name, rules, harness_timeout=900):
+    """rules: list of (regex on the loop's function name or file, bound).  Returns KaniResult."""
+    loops, out = discover_loops(scratch, name)
+    r0 = KaniResult(name)
+    if loops is None:
+        r0.reason = "could not build the harness to discover its loops"
+        if "could not compile" in out:
+            errs = [l for l in out.splitlines() if l.startswith("error")][:4]
+            r0.reason = "harness does not compile against the current tree: " + " | ".join(errs)
+        return r0, []
+    sel = []
+    for lid, fn, file, line in loops:
+        for pat, bound in rules:
+            if re.search(pat, fn) or re.search(pat, file):
+                sel.append((lid, bound, fn))
+                break
+    target = os.path.join(scratch.dir, "target-kani")
+    cmd = ["cargo", "kani", "-Z", "stubbing", "-Z", "unstable-options", "--harness-timeout",
+           f"{int(harness_timeout)}s", "--target-dir", target, "--output-format", "terse",
+           "--harness", name]
+    if sel:
+        cmd += ["--cbmc-args", "--unwindset", ",".join(f"{l}:{b}" for l, b, _ in sel)]
+    rc, out, dt = run(cmd, cwd=scratch.repo, timeout=harness_timeout + 600)
+    res = parse_output(out, [name])
+    return res[name], [f"{fn} -> {b}" for _, b, fn in sel]
